@@ -17,7 +17,7 @@ func (Engine) Generate(r *core.Rng, property, tier string) *core.Plan {
 		p.SetKnob("frozen", int64(r.Intn(10)))
 		p.SetKnob("frozenh", p.Knob("maturity", 2)+3+int64(r.Intn(14)))
 	}
-	if property == "C03" || property == "C05" || r.Bool(0.25) {
+	if property == "C03" || property == "C05" {
 		// script actors: key-less addresses behind malformed redeem scripts
 		p.SetKnob("weird", int64(r.Range(1, 4)))
 		p.SetKnob("weirdpick", int64(r.Intn(1000)))
@@ -53,6 +53,9 @@ func (Engine) Generate(r *core.Rng, property, tier string) *core.Plan {
 	case "C07":
 		g.on["badblock"] = true
 		g.badKinds = []string{"merkle", "dup-tx", "dup-tx", "second-coinbase", "no-coinbase"}
+	case "C34":
+		g.on["mempool"], g.on["badtx"], g.on["fork"] = true, true, true
+		g.poolHeavy = true
 	case "C11":
 		g.on["badblock"] = true
 		g.badKinds = []string{"reward+1", "reward-1", "cb-shift", "cb-shift-dpos", "cb-addr", "cb-addr-dpos", "cb-count4", "cb-count2"}
@@ -71,6 +74,9 @@ func (Engine) Generate(r *core.Rng, property, tier string) *core.Plan {
 			g.on[k] = false
 		}
 		g.on["mempool"] = true
+	} else if property == "C34" && r.Bool(0.6) || r.Bool(0.1) {
+		// a small size limit so eviction by fee rate happens within a short run
+		p.SetKnob("poolmax", r.LogUniform(300, 6000))
 	}
 	// a short funding prologue so several actors own mature outputs
 	for i := int64(0); i < p.Knob("maturity", 2); i++ {
@@ -95,6 +101,7 @@ type gen struct {
 	faultFree bool
 	bias      []int
 	badKinds  []string
+	poolHeavy bool
 }
 
 func (g *gen) goodTx() TxSpec {
@@ -207,6 +214,21 @@ func (g *gen) step() {
 	r := g.r
 	if (g.prop == "C07" && r.Bool(0.45)) || (g.prop != "C07" && g.on["badblock"] && r.Bool(0.04)) {
 		g.p.Add(g.mutStep())
+		return
+	}
+	if g.poolHeavy && r.Bool(0.55) {
+		if r.Bool(0.8) {
+			t := g.tx()
+			if r.Bool(0.25) {
+				t.InKind = 6 // collide with a pooled transaction's outpoint
+			}
+			if r.Bool(0.5) {
+				t.Fee = r.LogUniform(100, 5000000) // spread fee rates: ordering and eviction
+			}
+			g.p.Add(Step{Op: "submit", Tx: &t})
+		} else {
+			g.p.Add(Step{Op: "minepool"})
+		}
 		return
 	}
 	switch r.Pick(50, 12, 18, 8, 3, 4) {
